@@ -71,10 +71,10 @@ func allFuncsIn(fn *ssa.Function, out *[]*ssa.Function) {
 
 // callSiteConsts collects the constant integer values passed as argument
 // argIdx in every static call to callee inside fn (and its closures).
-func (w *World) callSiteConsts(fn *ssa.Function, callee string, argIdx int) ([]int64, error) {
+func (w *World) callSiteConsts(fn *ssa.Function, callee string, argIdx int) ([][]int64, error) {
 	var fns []*ssa.Function
 	allFuncsIn(fn, &fns)
-	var out []int64
+	var out [][]int64
 	for _, f := range fns {
 		for _, b := range f.Blocks {
 			for _, ins := range b.Instrs {
@@ -90,17 +90,57 @@ func (w *World) callSiteConsts(fn *ssa.Function, callee string, argIdx int) ([]i
 				if argIdx >= len(args) {
 					return nil, fmt.Errorf("call to %s in %s has %d args", callee, f, len(args))
 				}
-				c, ok := args[argIdx].(*ssa.Const)
-				if !ok || c.Value == nil {
-					return nil, fmt.Errorf("argument %d of %s in %s (%s) is not a compile-time constant", argIdx, callee, f, w.pos(ins.Pos()))
-				}
-				v, ok := constant.Int64Val(constant.ToInt(c.Value))
+				vals, ok := constValues(args[argIdx], 0)
 				if !ok {
-					return nil, fmt.Errorf("argument %d of %s in %s is not an integer constant", argIdx, callee, f)
+					return nil, fmt.Errorf("argument %d of %s in %s (%s) is not built from compile-time integer constants", argIdx, callee, f, w.pos(ins.Pos()))
 				}
-				out = append(out, v)
+				out = append(out, vals)
 			}
 		}
 	}
 	return out, nil
+}
+
+// constValues: the integer constants that can reach v: a constant, or a phi (possibly
+// nested, through conversions) whose every edge is one.
+func constValues(v ssa.Value, depth int) ([]int64, bool) {
+	if depth > 8 {
+		return nil, false
+	}
+	switch x := v.(type) {
+	case *ssa.Const:
+		if x.Value == nil {
+			return nil, false
+		}
+		n, ok := constant.Int64Val(constant.ToInt(x.Value))
+		if !ok {
+			return nil, false
+		}
+		return []int64{n}, true
+	case *ssa.Convert:
+		return constValues(x.X, depth+1)
+	case *ssa.ChangeType:
+		return constValues(x.X, depth+1)
+	case *ssa.Phi:
+		var out []int64
+		for _, e := range x.Edges {
+			vs, ok := constValues(e, depth+1)
+			if !ok {
+				return nil, false
+			}
+			for _, n := range vs {
+				dup := false
+				for _, m := range out {
+					if m == n {
+						dup = true
+					}
+				}
+				if !dup {
+					out = append(out, n)
+				}
+			}
+		}
+		return out, len(out) > 0
+	}
+	return nil, false
 }
